@@ -98,6 +98,15 @@ def check(run, prog, tier):
 
 
 def _transition_table(run, fi, paths, memterm, keyp, old_rec, is_id, is_flag):
+    defaults = {}
+    a_ = fi.node.args
+    pos = a_.posonlyargs + a_.args
+    for arg, dv in zip(pos[len(pos) - len(a_.defaults):], a_.defaults):
+        if isinstance(dv, ast.Constant):
+            defaults[arg.arg] = dv.value
+    for arg, dv in zip(a_.kwonlyargs, a_.kw_defaults):
+        if isinstance(dv, ast.Constant):
+            defaults[arg.arg] = dv.value
     conds = [c for p in paths for c, _, _, _ in p.conds]
     offending = comparison_only(conds, is_id)
     consts = constants_compared(conds, is_id) | {0xFFFF}
@@ -115,6 +124,10 @@ def _transition_table(run, fi, paths, memterm, keyp, old_rec, is_id, is_flag):
                     return flag
                 if old_rec(tm):
                     return (flag, cur)
+                if tm[0] == "param" and tm[1] == fi.qual and tm[2] in defaults:
+                    # an extra parameter with a default: the table is decided for the call sites that omit it (every caller
+                    # that passes it is reported by the id-flow rules below)
+                    return defaults[tm[2]]
                 raise AnalysisError(f"{ASSIGN}: term {show(tm)} is outside the transition-table abstraction")
 
             hits = [p for p in paths if path_matches(p, leaf)]
